@@ -333,6 +333,11 @@ func genbankFeatureParser(gb *GenBank, depth int) pars.Parser {
 		}
 		pars.Line(state, result)
 		state.Clear()
+		if c, err := pars.Next(state); err == nil && c != spaceByte {
+			// no feature line follows the header: the table is empty
+			gb.Table = nil
+			return nil
+		}
 		if err := fieldBodyParser(state, result); err != nil {
 			return err
 		}
